@@ -103,6 +103,16 @@ Definition cell_close (approx : bool) (m o : list Q) : bool :=
     (length m =? length o)%nat && forallb2 (fun a b => Qle_bool (Qabs (a - b)) (tolx * L)) m o
   else qlist_eqb m o.
 
+(* lengths of verbatim data: the exact root up to 1e-15 relative (a few ulp – the property does not fix
+   the summation / scaling algorithm of the length); zero lengths exactly *)
+Definition tolu : Q := 1 # 1000000000000000.
+Definition len_close (approx : bool) (m o : list Q) : bool :=
+  let L := qsum (map Qabs m) in
+  (length m =? length o)%nat &&
+  forallb2 (fun a b => Qle_bool (Qabs (a - b)) ((if approx then tolx else tolu) * L)) m o.
+Definition norm_close (approx : bool) (m : list (list Qc)) (o : list Q) : bool :=
+  forallb2 (len_close approx) (map (map (fun x : Qc => this x)) m) (cells_of 1 o).
+
 Definition arr_close (approx : bool) (m : list (list Qc)) (nvdim : nat) (o : list Q) : bool :=
   forallb2 (cell_close approx) (map (map (fun x : Qc => this x)) m) (cells_of nvdim o).
 
@@ -136,7 +146,7 @@ Definition check_hist p1 p2 n_ nvdim unit_ vals norm0 v0 ops (obs : option c15_o
           arr_close approx (f_arr f) nvdim (o_arr o) &&
           boollist_eqb (f_valid f) (o_valid o) &&
           (* norm getter *)
-          arr_close approx (f_arr nf) 1 (o_norm o) &&
+          norm_close approx (f_arr nf) (o_norm o) &&
           (f_nvdim nf =? o_norm_nvdim o)%nat &&
           zlist_eqb (n (f_mesh nf)) (o_norm_n o) &&
           qlist_eqb (pmin (reg (f_mesh nf))) (o_norm_pmin o) &&
